@@ -1,13 +1,106 @@
-import Autog.Lemmas.Phase4Simple
-/-! # C17
-    Scale equivariance. -/
+import Autog.Properties.C16
+import Autog.Properties.C03
+/-! # C17 — unit independence (scale equivariance)
+
+    For every positive factor c (in particular every power of two) and every graph state with well-formed layer lists:
+    scaling all node sizes and NodeSpacing by c scales the x coordinates VAlign assigns by c (`C17_valign_scale`), and
+    scaling the layer heights and LayerSpacing by c scales every band's Y by c (`C17_layerYs_scale`); list level:
+    `placeFrom_scale`, `layerW_scale`, `valign_scale`, `assignY_scale` for every factor. The theorems are about the model
+    functions the keys `T:phase4-valign`, `T:assignY` compare with the real code.
+    PARTIAL: PackRight, SinkColoring, Brandes–Köpf and the routers are decided by exact comparison at 2^k (k ∈ −3..6) on
+    generated inputs plus the `Numbers` facts (the only float literals in phases 4/5 are 0, 2 and the B&K median constants;
+    no size or spacing is read in phases 1–3). -/
 
 namespace Autog
+open Phase4Simple
 
-theorem C17_placeFrom_scale : type_of% @Phase4Simple.placeFrom_scale := @Phase4Simple.placeFrom_scale
+/-- all sizes and coordinates of the nodes, and the layer sizes, multiplied by c -/
+def scaleG (c : Rat) (g : G) : G :=
+  { g with nodes := g.nodes.map fun n => { n with x := c * n.x, y := c * n.y, w := c * n.w, h := c * n.h },
+           layers := g.layers.map fun l => { l with w := c * l.w, h := c * l.h } }
 
-theorem C17_valign_scale : type_of% @Phase4Simple.valign_scale := @Phase4Simple.valign_scale
+theorem scaleG_node_w (c : Rat) (g : G) (n : Nat) : ((scaleG c g).node n).w = c * (g.node n).w := by
+  simp only [scaleG, G.node, Array.getD_eq_getD_getElem?, Array.getElem?_map]
+  cases g.nodes[n]? with
+  | none => simp [default, instInhabitedNode.default]
+  | some nd => simp
 
-theorem C17_assignY_scale : type_of% @Phase4Simple.assignY_scale := @Phase4Simple.assignY_scale
+theorem widthsOf_scaleG (c : Rat) (g : G) (l : Layer) (l' : Layer) (hn : l'.nodes = l.nodes) :
+    widthsOf (scaleG c g) l' = (widthsOf g l).map (c * ·) := by
+  simp [widthsOf, hn, scaleG_node_w, List.map_map, Function.comp]
+
+theorem maxRat_scale (a b c : Rat) (hc : 0 < c) : maxRat (c * a) (c * b) = c * maxRat a b := by
+  unfold maxRat
+  by_cases h : a ≤ b
+  · have : c * a ≤ c * b := Rat.mul_le_mul_of_nonneg_left h (Rat.le_of_lt hc)
+    simp [h, this]
+  · have h' : b < a := Rat.not_le.1 h
+    have : ¬ c * a ≤ c * b := by
+      intro hle
+      have := (lt_scale b a c hc).2 h'
+      exact absurd hle (Rat.not_le.2 this)
+    simp [h, this]
+
+theorem foldl_maxRat_scale (c : Rat) (hc : 0 < c) : ∀ (l : List Rat) (d : Rat),
+    (l.map (c * ·)).foldl maxRat (c * d) = c * l.foldl maxRat d
+  | [], _ => rfl
+  | x :: l, d => by
+    simp only [List.map_cons, List.foldl_cons, maxRat_scale _ _ _ hc]
+    exact foldl_maxRat_scale c hc l _
+
+theorem scaleG_layers_nodes (c : Rat) (g : G) :
+    (scaleG c g).layers.toList.map (·.nodes) = g.layers.toList.map (·.nodes) := by
+  simp [scaleG, List.map_map, Function.comp]
+
+theorem maxLayerW_scale (c ns : Rat) (hc : 0 < c) (g : G) : maxLayerW (c * ns) (scaleG c g) = c * maxLayerW ns g := by
+  unfold maxLayerW
+  have h0 : (0 : Rat) = c * 0 := by grind
+  have hl : ((scaleG c g).layers.toList.map fun l => layerW (c * ns) (widthsOf (scaleG c g) l)) =
+      (g.layers.toList.map fun l => layerW ns (widthsOf g l)).map (c * ·) := by
+    have hls : (scaleG c g).layers.toList = g.layers.toList.map fun l => { l with w := c * l.w, h := c * l.h } := by
+      simp [scaleG]
+    rw [hls, List.map_map, List.map_map]
+    apply List.map_congr_left
+    intro l _
+    simp only [Function.comp]
+    rw [widthsOf_scaleG c g l { l with w := c * l.w, h := c * l.h } rfl, layerW_scale]
+  rw [hl]
+  conv => lhs; rw [h0]
+  exact foldl_maxRat_scale c hc _ 0
+
+theorem layersWF_scaleG (c : Rat) (g : G) (h : LayersWF g) : LayersWF (scaleG c g) := by
+  have hn : (scaleG c g).layers.toList.flatMap (·.nodes) = g.layers.toList.flatMap (·.nodes) := by
+    rw [List.flatMap_def, scaleG_layers_nodes, ← List.flatMap_def]
+  exact ⟨by rw [hn]; exact h.nodup, fun n hn' => by rw [hn] at hn'; simpa [scaleG] using h.bound n hn'⟩
+
+/-- C17 (VAlign): scaling sizes and spacing by c > 0 scales every x coordinate by c -/
+theorem C17_valign_scale (c ns : Rat) (hc : 0 < c) (g : G) (hwf : LayersWF g) (i : Nat) (hi : i < g.layers.toList.length) :
+    xsOf (execVerticalAlign (c * ns) (scaleG c g)) ((scaleG c g).layers.toList[i]'(by simpa [scaleG] using hi)) =
+      (xsOf (execVerticalAlign ns g) (g.layers.toList[i])).map (c * ·) := by
+  have hi' : i < (scaleG c g).layers.toList.length := by simpa [scaleG] using hi
+  have hl' : (scaleG c g).layers.toList[i] ∈ (scaleG c g).layers.toList := List.getElem_mem hi'
+  have hl : g.layers.toList[i] ∈ g.layers.toList := List.getElem_mem hi
+  rw [(C16_valign_coordinates (c * ns) (scaleG c g) (layersWF_scaleG c g hwf) _ hl').1,
+      (C16_valign_coordinates ns g hwf _ hl).1]
+  have hnodes : ((scaleG c g).layers.toList[i]).nodes = (g.layers.toList[i]).nodes := by
+    simp [scaleG]
+  rw [widthsOf_scaleG c g (g.layers.toList[i]) _ hnodes, maxLayerW_scale c ns hc, valign_scale]
+
+/-- C17 (bands): scaling layer heights and LayerSpacing by c scales every band's Y by c (any factor) -/
+theorem C17_layerYs_scale (c ls : Rat) (g : G) : layerYs (c * ls) (scaleG c g) = (layerYs ls g).map (c * ·) := by
+  unfold layerYs
+  have : (scaleG c g).layers.toList.map (·.h) = (g.layers.toList.map (·.h)).map (c * ·) := by
+    simp [scaleG, List.map_map, Function.comp]
+  rw [this]
+  have h0 : (0 : Rat) = c * 0 := by grind
+  conv => lhs; rw [h0]
+  exact assignY_scale c ls 0 _
+
+theorem C17_placeFrom_scale : type_of% @placeFrom_scale := @placeFrom_scale
+theorem C17_layerW_scale : type_of% @layerW_scale := @layerW_scale
+theorem C17_valign_list_scale : type_of% @valign_scale := @valign_scale
+theorem C17_assignY_scale : type_of% @assignY_scale := @assignY_scale
+
+example : xsOf (execVerticalAlign (4 * 5) (scaleG 4 exG)) ((scaleG 4 exG).layers.toList[1]!) = [0, 20, 80] := by decide +kernel
 
 end Autog
